@@ -4,6 +4,7 @@ package ch
 
 import (
 	"context"
+	"go.opentelemetry.io/otel/trace"
 
 	"github.com/ClickHouse/ch-go/compress"
 	"github.com/ClickHouse/ch-go/proto"
@@ -48,7 +49,23 @@ func VerifC02Query() {
 		comp = proto.CompressionEnabled
 	}
 	c := vNewClient(conn, v, comp, method, cs)
-	err := c.Do(context.Background(), q)
+	ctx := context.Background()
+	var span *[24]byte
+	var spanFlags byte
+	if verifChoice("span", 2) == 1 {
+		// the caller's OpenTelemetry span context travels in the client info
+		var ids [24]byte
+		copy(ids[:], verifBytes("span.ids", 24))
+		verifAssume(vAnd(ids[0] != 0, ids[16] != 0)) // valid: neither id is all zero
+		spanFlags = verifU8("span.flags")
+		var cfg trace.SpanContextConfig
+		copy(cfg.TraceID[:], ids[:16])
+		copy(cfg.SpanID[:], ids[16:])
+		cfg.TraceFlags = trace.TraceFlags(spanFlags)
+		ctx = trace.ContextWithSpanContext(ctx, trace.NewSpanContext(cfg))
+		span = &ids
+	}
+	err := c.Do(ctx, q)
 	if len(q.Parameters) > 0 && v < rParameters {
 		verifAssert(err != nil, "parameters-refused-before-54459")
 		verifAssert(len(conn.out) == 0, "nothing-written-when-refused")
@@ -56,7 +73,7 @@ func VerifC02Query() {
 	}
 	verifAssert(err == nil, "do-ok")
 	// --- reference stream
-	rq := rQuery{id: q.QueryID, body: q.Body, secret: q.Secret, quotaKey: q.QuotaKey, initialUser: q.InitialUser, compression: framed,
+	rq := rQuery{span: span, spanFlags: spanFlags, id: q.QueryID, body: q.Body, secret: q.Secret, quotaKey: q.QuotaKey, initialUser: q.InitialUser, compression: framed,
 		clientName: "cl", major: 1, minor: 2, patch: 3, rev: v, addr: "127.0.0.1:9"}
 	for _, s := range cs {
 		rq.settings = append(rq.settings, rSetting{key: s.Key, value: s.Value, important: s.Important})
